@@ -5,15 +5,9 @@ CONSTANTS
   Calls <- Calls_2x21
   ChanCap = 1
   MaxTasks = 3
-  Cancellable = {}
+  Cancellable = {"s2"}
   RegisterFirst = TRUE
 INVARIANTS
-  TypeOK
-  OwnResult
-  NoPanic
-  NoLostWakeup
-PROPERTIES
-  EveryCallReturns
-  ResultWrittenOnce
+  ExportPrefix
 VIEW NoHistView
-CHECK_DEADLOCK TRUE
+CHECK_DEADLOCK FALSE
